@@ -1,0 +1,15 @@
+//go:build verif
+// +build verif
+
+package concurrencylimiter
+
+// VerifHook, when set, is called at the protocol's linearisation points
+// (build tag verif only). It may block: the verification harness uses that to
+// schedule goroutines.
+var VerifHook func(point string, args ...interface{})
+
+func vh(point string, args ...interface{}) {
+	if h := VerifHook; h != nil {
+		h(point, args...)
+	}
+}
